@@ -330,11 +330,16 @@ def analyse(ck):
            [T.show(o, maxdepth=5)[:200] for e in cons for o in circ.cb_operands(e)])
 
     # ------------------------------------------------------------------ halves8_lt + sort_digests4 (C31)
+    from . import lc
     fr, b = gframe(ck, "halves8_lt", ev)
     loc = "%s:%s" % (b.file, b.line)
-    rt = P.norm(fr.return_term())
+    lc.register_param_lens(b)
+    hnest = lc.frame_nest(fr)
+    # loop-canonical form: `for i in (0..8).rev() { lhs[i], rhs[i] }` and `for (l, r) in lhs.iter().zip(rhs).rev()` are the same term
+    rt = P.norm(hnest.canon(P.norm(fr.return_term())))
     lhs, rhs = param(b, 2), param(b, 3)
     ok = False
+    desc = False
     if isinstance(rt, tuple) and rt[0] == "phi" and len(rt[2]) == 2:
         init = [z for z in rt[2] if P.call_name(z) == "cb._false"]
         step = [z for z in rt[2] if z not in init]
@@ -347,17 +352,13 @@ def analyse(ck):
                 if len(u) == 1 and len(an) == 1:
                     ua = [P.norm(z) for z in u[0][4][1:]]
                     i = ua[0][2] if (isinstance(ua[0], tuple) and ua[0][0] == "idx") else None
-                    r = None
-                    if isinstance(i, tuple) and i[0] == "elem":
-                        it = i[1][1] if (isinstance(i[1], tuple) and i[1][0] == "rev") else i[1]
-                        r = circ.range_expr(it)
                     aa = [P.norm(z) for z in P.cb_args(an[0], "cb.and")]
                     eq = [z for z in aa if P.cb_args(z, "cb.is_equal") is not None]
                     rc = [z for z in aa if isinstance(z, tuple) and z[0] in ("rec", "phi")]
-                    ok = (ua == [("idx", lhs, i), ("idx", rhs, i)] and r is not None and P.const_of(r[0]) == 0 and P.const_of(r[1]) == 8 and len(eq) == 1 and len(rc) == 1
+                    ok = (ua == [("idx", lhs, i), ("idx", rhs, i)] and lc.is_var(i, 0, 8) and len(eq) == 1 and len(rc) == 1
                           and {P.norm(z) for z in P.cb_args(eq[0], "cb.is_equal")} == {("idx", lhs, i), ("idx", rhs, i)})
-    revs = [t for bb, t in b.calls() if t.get("name") == "rev"]
-    ob.add({"C31"}, ok and len(revs) == 1, "TERM", "gadget/sort/halves8_lt",
+                    desc = ok and lc.reversed_loop(hnest, i) is True
+    ob.add({"C31"}, ok and desc, "TERM", "gadget/sort/halves8_lt",
            "halves8_lt: lt = {false, or(u32_lt(l_i, r_i), and(l_i == r_i, lt))} folded from the least significant half (i over (0..8).rev()): lexicographic with half 0 most significant", loc, T.show(rt, maxdepth=6)[:500])
 
     fr, b = gframe(ck, "sort_digests4", ev)
